@@ -1,6 +1,7 @@
 #!/bin/bash
 # runs the thorough tier of the given checks (default: all) one after the other; prints one line each
 cd "$(dirname "$0")"
+mkdir -p build
 ids=${@:-C01 C02 C03 C04 C05 C06 C07 C08 C09 C10 C11 C12 C13 C14 C15 C16 C17 C18 C19 C20}
 for id in $ids; do
   s=$(date +%s); ./run.sh $id thorough > build/thorough_$id.log 2>&1; rc=$?; e=$(date +%s)
